@@ -302,7 +302,7 @@ def houseDeposit (s : State) (owner : Acct) (amount : Int) (x : HouseDepExt) : S
     match s.subs a with
     | none => (s, .panic)
     | some sub =>
-      if !x.tkOk then (s, .err .ticket) else
+      if !x.tkOk then (s, .err .ext) else
       match sub.sum.spend amount with
       | none => (s, .err .amount)
       | some sum' =>
@@ -330,7 +330,7 @@ def houseWithdraw (s : State) (owner : Acct) (x : HouseWdExt) : State × Res :=
     match s.subs a with
     | none => (s, .panic)
     | some sub =>
-      if !x.tkOk then (s, .err .ticket) else
+      if !x.tkOk then (s, .err .ext) else
       if !x.wdOk then (s, .err .ext) else
       match send s.bank extAcct a x.paid with
       | none => (s, .err .ext)
